@@ -8,14 +8,19 @@ from . import core
 
 
 class Ctx:
-    def __init__(self, tier, repo=None):
+    def __init__(self, tier, repo=None, only=None):
         self.tier = tier
         self.repo = repo
+        self.only = only
 
     def configs(self, need=None):
         """Feature configs to analyse: default for quick; every advertised one for thorough."""
+        if self.only:
+            return list(self.only)
         if self.tier == 'quick':
-            return ['default']
+            # the default feature set and the one with every feature on (code under `cfg(feature = ..)` exists in
+            # either of the two); the three intermediate sets are left to the thorough tier
+            return ['default', 'all']
         return ['default', 'std', 'std-approx', 'std-serde', 'all']
 
     def facts(self, cfg='default'):
